@@ -132,6 +132,13 @@ func stlBinary(r *vlib.Run) {
 			tris, desc = gridMesh(rng, n), "big-grid"
 			c.Max("stl.largest_mesh_faces", float64(len(tris)))
 		}
+		if c.Index == 11 {
+			// one mesh of more than 2^20 faces whose count is not a multiple of any block size
+			n := 1<<20 + 1 + 2*rng.Intn(8000)
+			tris, desc = gridMesh(rng, n), "million-face-grid"
+			c.Max("stl.largest_mesh_faces", float64(len(tris)))
+			c.Count("stl.binary.meshes_above_2^20_faces", 1)
+		}
 		wit := meshWitness(tris, desc)
 		data := model3d.EncodeSTL(tris)
 		c.Count("stl.binary.encodes", 1)
